@@ -250,6 +250,22 @@ pub enum Leaf {
         metavar: String,
         strict: Strict,
     },
+    /// `any(metavar, check)`, optionally `.anywhere()`; only the totality check (C04) generates it
+    Any {
+        metavar: String,
+        accept: AnyAccept,
+        anywhere: bool,
+    },
+}
+
+/// which items an `any` parser takes
+#[derive(Clone, Debug, PartialEq, Eq, Hash)]
+pub enum AnyAccept {
+    All,
+    Prefix(String),
+    Exact(String),
+    /// everything that does not start with a dash
+    NoDash,
 }
 
 #[derive(Clone, Debug, PartialEq, Eq, Hash)]
@@ -632,6 +648,19 @@ fn write_item(i: &Item, s: &mut String) {
                 let _ = write!(s, ".help({:?})", h);
             }
         }
+        Leaf::Any {
+            metavar,
+            accept,
+            anywhere,
+        } => {
+            let _ = write!(s, "any({:?}, {:?})", metavar, accept);
+            if let Some(h) = &i.help {
+                let _ = write!(s, ".help({:?})", h);
+            }
+            if *anywhere {
+                s.push_str(".anywhere()");
+            }
+        }
         leaf => {
             write_names(&i.names, s);
             if let Some(h) = &i.help {
@@ -651,7 +680,7 @@ fn write_item(i: &Item, s: &mut String) {
                         s.push_str(".adjacent()");
                     }
                 }
-                Leaf::Pos { .. } => unreachable!(),
+                Leaf::Pos { .. } | Leaf::Any { .. } => unreachable!(),
             }
         }
     }
